@@ -84,8 +84,12 @@ HideAlt(st, x) ==
     LET b == Lookup(st, x)  H == Hidden(st)
     IN IF b # 0 /\ b \in H THEN [NoAlt EXCEPT !.hide = LookupSkip(st, x, H)] ELSE NoAlt
 
+\* nesting level of the current point: function nesting first, block nesting inside the innermost function second
+FnFrames == {i \in 1..Len(stack) : stack[i].k = "func"}
+Level == Cardinality(FnFrames) * 100 + (IF FnFrames = {} THEN Len(stack) ELSE Len(stack) - MaxOf(FnFrames))
+
 \* "gshallow": a definition of global n at a shallower nesting level than an earlier definition of n in the same file
-Shallower(n) == \E g \in gdefs : g[1] = n /\ g[3] = nfile /\ g[5] > Len(stack)
+Shallower(n) == \E g \in gdefs : g[1] = n /\ g[3] = nfile /\ g[5] > Level
 
 Top == stack[Len(stack)]
 Push(fr) == Append(stack, fr)
@@ -106,7 +110,10 @@ PendIds == {stack[i].pend.id : i \in {j \in 1..Len(stack) : "pend" \in DOMAIN st
 \* inside the body of a function statement that defines a global
 InGFunc == \E i \in 1..Len(stack) : "gname" \in DOMAIN stack[i]
 
-More == Len(prog) < MaxItems
+\* a block that ended in `return u` takes no further statement (only its closer, or the next file)
+Returned == "ret" \in DOMAIN Top
+More0 == Len(prog) < MaxItems
+More == More0 /\ ~Returned
 CanOpen == Len(stack) < MaxDepth
 On(k) == k \in Kinds
 
@@ -185,7 +192,7 @@ Assign(n, fl, u) ==
                                    alt |-> alt, altn |-> naltn, selfw |-> selfw])
           /\ reads' = Read(b)
           /\ nid' = IF nb = 0 THEN nid + 1 ELSE nid
-          /\ gdefs' = IF nb = 0 THEN gdefs \cup {<<n, nid, nfile, AtTop, Len(stack)>>} ELSE gdefs
+          /\ gdefs' = IF nb = 0 THEN gdefs \cup {<<n, nid, nfile, AtTop, Level>>} ELSE gdefs
           /\ empty' = empty \ {nb}
     /\ UNCHANGED <<stack, nfile>>
 
@@ -201,8 +208,8 @@ Assign2(n, m, u) ==
            b  == Lookup(stack, u)
            gid == IF nb = 0 THEN nid ELSE 0
            gmid == IF mb = 0 THEN (IF nb = 0 THEN nid + 1 ELSE nid) ELSE 0
-           new == (IF nb = 0 THEN {<<n, gid, nfile, AtTop, Len(stack)>>} ELSE {})
-                  \cup (IF mb = 0 THEN {<<m, gmid, nfile, AtTop, Len(stack)>>} ELSE {})
+           new == (IF nb = 0 THEN {<<n, gid, nfile, AtTop, Level>>} ELSE {})
+                  \cup (IF mb = 0 THEN {<<m, gmid, nfile, AtTop, Level>>} ELSE {})
        IN /\ prog' = Append(prog, [infn |-> InFunc, vis |-> VisIds, vispend |-> PendIds, top |-> AtTop, ingf |-> InGFunc, k |-> "assign2", n |-> n, nb |-> nb, id |-> gid, m |-> m, mb |-> mb, mid |-> gmid,
                                    u |-> u, b |-> b,
                                    \* the call is adopted as the initialiser of a still-empty first target
@@ -243,7 +250,7 @@ If(u) ==
 
 \* elseif u then : closes the then-block (its locals vanish), condition resolved outside it
 ElseIf(u) ==
-    /\ On("if") /\ More /\ Top.k = "if"
+    /\ On("if") /\ More0 /\ Top.k = "if"
     /\ LET b == Lookup(Pop, u) IN
        /\ prog' = Append(prog, [infn |-> InFunc, vis |-> VisIds, vispend |-> PendIds, top |-> AtTop, ingf |-> InGFunc, k |-> "elseif", u |-> u, b |-> b, alt |-> HideAlt(Pop, u)])
        /\ reads' = Read(b)
@@ -251,7 +258,7 @@ ElseIf(u) ==
     /\ UNCHANGED <<nid, nfile, gdefs, empty>>
 
 Else ==
-    /\ On("if") /\ More /\ Top.k = "if"
+    /\ On("if") /\ More0 /\ Top.k = "if"
     /\ prog' = Append(prog, [infn |-> InFunc, vis |-> VisIds, vispend |-> PendIds, top |-> AtTop, ingf |-> InGFunc, k |-> "else"])
     /\ stack' = Append(Pop, Frame("else"))
     /\ UNCHANGED <<nid, nfile, reads, gdefs, empty>>
@@ -264,7 +271,7 @@ Repeat ==
 
 \* until u : the condition sees the locals of the loop body
 Until(u) ==
-    /\ On("repeat") /\ More /\ Top.k = "repeat"
+    /\ On("repeat") /\ More0 /\ Top.k = "repeat"
     /\ LET b == Lookup(stack, u) IN
        /\ prog' = Append(prog, [infn |-> InFunc, vis |-> VisIds, vispend |-> PendIds, top |-> AtTop, ingf |-> InGFunc, k |-> "until", u |-> u, b |-> b, alt |-> HideAlt(stack, u)])
        /\ reads' = Read(b)
@@ -333,7 +340,7 @@ GFunc(n, p) ==
        IN /\ prog' = Append(prog, [infn |-> InFunc, vis |-> VisIds, vispend |-> PendIds, top |-> AtTop, ingf |-> InGFunc, k |-> "gfunc", n |-> n, nb |-> nb, id |-> gid, p |-> p, pid |-> pid, altn |-> altn])
           /\ stack' = Declare(Append(stack, fr), p, pid)
           /\ nid' = pid + 1
-          /\ gdefs' = IF nb = 0 THEN gdefs \cup {<<n, nid, nfile, AtTop, Len(stack)>>} ELSE gdefs
+          /\ gdefs' = IF nb = 0 THEN gdefs \cup {<<n, nid, nfile, AtTop, Level>>} ELSE gdefs
           /\ empty' = empty \ {nb}
     /\ UNCHANGED <<nfile, reads>>
 
@@ -347,9 +354,26 @@ Meth(t, colon, p) ==
     /\ nid' = nid + 1
     /\ UNCHANGED <<nfile, gdefs, empty>>
 
+\* return u : last statement of its block (at the top level: the value of the module)
+Return(u) ==
+    /\ On("ret") /\ More
+    /\ LET b == Lookup(stack, u) IN
+       /\ prog' = Append(prog, [infn |-> InFunc, vis |-> VisIds, vispend |-> PendIds, top |-> AtTop, ingf |-> InGFunc, k |-> "ret", u |-> u, b |-> b, alt |-> HideAlt(stack, u)])
+       /\ reads' = Read(b)
+    /\ stack' = [stack EXCEPT ![Len(stack)] = [f \in DOMAIN @ \cup {"ret"} |-> IF f = "ret" THEN TRUE ELSE @[f]]]
+    /\ UNCHANGED <<nid, nfile, gdefs, empty>>
+
+\* local n = require("f<k>") : a local whose value is the module of file k (the file may not exist)
+Require(n, k) ==
+    /\ On("require") /\ More /\ k # nfile
+    /\ prog' = Append(prog, [infn |-> InFunc, vis |-> VisIds, vispend |-> PendIds, top |-> AtTop, ingf |-> InGFunc, k |-> "require", n |-> n, id |-> nid, file |-> k])
+    /\ stack' = Declare(stack, n, nid)
+    /\ nid' = nid + 1
+    /\ UNCHANGED <<nfile, reads, gdefs, empty>>
+
 \* end : closes do/while/if/else/for/function bodies
 End ==
-    /\ More /\ Top.k \in {"do", "while", "if", "else", "for", "func"}
+    /\ More0 /\ Top.k \in {"do", "while", "if", "else", "for", "func"}
     /\ prog' = Append(prog, [infn |-> InFunc, vis |-> VisIds, vispend |-> PendIds, top |-> AtTop, ingf |-> InGFunc, k |-> "end"])
     /\ stack' = IF Top.k = "func" /\ "pend" \in DOMAIN Top
                 THEN Declare(Pop, Top.pend.n, Top.pend.id)     \* `local n = function` becomes visible now
@@ -358,7 +382,7 @@ End ==
 
 \* start the next file (only between complete top-level statements)
 NextFile ==
-    /\ On("file") /\ More /\ AtTop /\ nfile < MaxFiles
+    /\ On("file") /\ More0 /\ AtTop /\ nfile < MaxFiles
     /\ prog' = Append(prog, [infn |-> InFunc, vis |-> VisIds, vispend |-> PendIds, top |-> AtTop, ingf |-> InGFunc, k |-> "file"])
     /\ stack' = <<Frame("file")>>
     /\ nfile' = nfile + 1
@@ -381,6 +405,8 @@ Next ==
     \/ \E n \in Names, u \in UNames : ForNum(n, u) \/ ForIn(n, u)
     \/ \E n \in Names, p \in Names : LFunc(n, p) \/ LEqFunc(n, p) \/ GFunc(n, p)
     \/ \E t \in Names, c \in BOOLEAN, p \in Names : Meth(t, c, p)
+    \/ \E u \in UNames : Return(u)
+    \/ \E n \in Names, k \in 1..MaxFiles : Require(n, k)
     \/ End
     \/ NextFile
 
